@@ -997,6 +997,7 @@ static ChildResult run_child(const std::function<Scenario(const std::string&)>& 
   size_t p = all.rfind("#END ");
   if (p == std::string::npos) {
     r.outcome = "lost"; r.events = all;
+    { size_t nl = r.events.rfind('\n'); r.events.resize(nl == std::string::npos ? 0 : nl + 1); }    // drop a record that was cut off in the middle
     char tmp[160]; snprintf(tmp, sizeof tmp, "{\"e\":\"outcome\",\"t\":9,\"op\":\"lost\",\"a\":%d,\"b\":0,\"r\":0,\"v\":0}\n", st);
     r.events += tmp; return r;
   }
